@@ -484,6 +484,7 @@ class HashRule(ABC):
                         symbol=parts[i],
                         first_level=first_level,
                         ref_is_global_table=False,
+                        ref_resolver=resolver,
                     )
                 )
                 return
@@ -550,6 +551,9 @@ class UndefinedSymbolHashRule(HashRule):
     ref_is_global_table = None  # type: bool
     """If true, ref is the global table, so we should use an `in` check instead of `hasattr`"""
 
+    ref_resolver = None  # type: Optional[Callable]
+    """If set, looks the base reference up again (the name it was reached through may be re-bound)"""
+
     def __init__(
         self,
         ref: object,
@@ -557,6 +561,7 @@ class UndefinedSymbolHashRule(HashRule):
         symbol: str,
         first_level: bool,
         ref_is_global_table: bool,
+        ref_resolver: Optional[Callable] = None,
     ):
         # noinspection PyUnresolvedReferences
         super().__init__(
@@ -567,6 +572,7 @@ class UndefinedSymbolHashRule(HashRule):
         )
         self.ref = ref
         self.ref_is_global_table = ref_is_global_table
+        self.ref_resolver = ref_resolver
 
     def clone(self) -> HashRule:
         return UndefinedSymbolHashRule(
@@ -575,6 +581,7 @@ class UndefinedSymbolHashRule(HashRule):
             self.symbol,
             self.first_level,
             self.ref_is_global_table,
+            self.ref_resolver,
         )
 
     def collect_transitive_dependencies(
@@ -596,7 +603,10 @@ class UndefinedSymbolHashRule(HashRule):
         if self.ref_is_global_table:
             return self.symbol in self.ref
 
-        return hasattr(self.ref, self.symbol)
+        # The object the attribute was missing on is looked up again: the name (or dotted path)
+        # it was reached through may point to another object by now, e.g. a re-defined class.
+        ref = self.ref_resolver() if self.ref_resolver is not None else self.ref
+        return hasattr(ref, self.symbol)
 
     def __repr__(self):
         return "UndefinedSymbolHashRule(parent_symbol={parent_symbol}, symbol={symbol})".format(
